@@ -9,7 +9,7 @@ fn run(case: &Value) -> Value {
     for cfg in case["configs"].as_array().unwrap() {
         let mut c = case.clone();
         for (k, v) in cfg.as_object().unwrap() {
-            if k != "input_kind" {
+            if k != "input_kind" && k != "path" {
                 c[k] = v.clone();
             }
         }
@@ -18,6 +18,11 @@ fn run(case: &Value) -> Value {
             "mem" => (),
             "frag" => {
                 c["input"] = json!({"regions": [{"start": 0, "hex": mem_hex}]});
+            }
+            kind if cfg["path"].is_string() => {
+                // an existing file given by its path (special files whose reported size is not their content's)
+                let path = cfg["path"].as_str().unwrap().to_string();
+                c["input"] = if kind == "file" { json!({"file": path}) } else { json!({"mmap": path}) };
             }
             kind => {
                 let path = format!("{}/c06_{}_{}.bin", case["workdir"].as_str().unwrap(), std::process::id(), outs.len());
